@@ -412,6 +412,10 @@ def stage_glr(work, tier, seed):
     rs = run.run_tlc_shards(work, "TraceGLR", "TraceGLR.cfg", envs)
     verdicts = [v for r in rs for v in r["verdicts"]]
     return {"verdicts": verdicts, "gtext": gtext, "inputs": inputs,
+            "divergences": ["GLRRuntime predicts %s, observed ok=%s n=%s: %s #%s" % (
+                v["mon"]["opmodel"], v["mon"]["ok"], v["mon"]["n"], v["id"], v["iid"])
+                for v in verdicts if v["mon"]["opdiv"]][:20],
+            "nmodel_runs": sum(1 for v in verdicts if v["mon"]["opmodel"]["k"] != "skip"),
             "states": sum(r["distinct"] for r in rs), "transitions": sum(r["states"] for r in rs),
             "ntraces": len(verdicts), "nok": sum(1 for v in verdicts if v["mon"]["ok"]),
             "nsent": sum(1 for v in verdicts if v["mon"]["sent"]),
@@ -1614,7 +1618,41 @@ def stage_ast(work, tier, seed):
             "samples": [dict(id=x["id"], input=x["input"], want=x["want"], got=x["got"]) for x in recs[:120:50]]}
 
 
-STAGES = {"ast": stage_ast, "codegen": stage_codegen, "builder": stage_builder, "determinism": stage_determinism, "regen": stage_regen, "pipeline": stage_pipeline, "lex": stage_lex, "resolve": stage_resolve, "prec": stage_prec, "tables": stage_tables, "lr": stage_lr, "mci_lr": stage_mci_lr, "glr": stage_glr}
+
+def stage_mci_glr(work, tier, seed):
+    """TLC explores GLRRuntime over the real dumped LALR_RN tables for every token
+    string up to MAXLEN (MCI_GLR)."""
+    tab = get(work, "tables", tier, seed)
+    maxlen = 4 if tier == "quick" else 6
+    cases = []
+    gtext = {}
+    for gid, g, tags in corpus(tier, seed):
+        if "meta" in tags or len(g["terms"]) > (3 if tier == "quick" else 4):
+            continue
+        if tab["nodis"].get("%s|rn" % gid) is None:
+            continue
+        text = G.render(g)
+        cid = "%s|rn" % gid
+        gtext[cid] = text
+        cases.append({"id": cid, "grammar": text, "cfg": {"algo": "glr"},
+                      "meta": {"nodis": False, "plain": True}})
+    pres = run.run_vdrive(work, "mci_glr", cases, shards=4)
+    allp = work.path("mci_glr", "all")
+    n = 0
+    with open(allp + ".dumps.ndjson", "w") as f:
+        for p in pres:
+            for d in run.read_ndjson(p + ".dumps.ndjson"):
+                f.write(json.dumps(d) + "\n")
+                n += 1
+    r = run.run_tlc(work, "MCI_GLR", "MCI_GLR.cfg",
+                    {"DUMPS": allp + ".dumps.ndjson", "MAXLEN": str(maxlen)},
+                    workers=run.NCPU, timeout=3000)
+    return {"verdicts": r["verdicts"], "gtext": gtext, "states": r["distinct"], "transitions": r["states"],
+            "ntables": n, "maxlen": maxlen,
+            "samples": [dict(table=c["id"], grammar=c["grammar"]) for c in cases[:2]]}
+
+
+STAGES = {"mci_glr": stage_mci_glr, "ast": stage_ast, "codegen": stage_codegen, "builder": stage_builder, "determinism": stage_determinism, "regen": stage_regen, "pipeline": stage_pipeline, "lex": stage_lex, "resolve": stage_resolve, "prec": stage_prec, "tables": stage_tables, "lr": stage_lr, "mci_lr": stage_mci_lr, "glr": stage_glr}
 
 
 # ---------------------------------------------------------------------------
@@ -1663,7 +1701,7 @@ def coverage(prop, res, stage_names):
                                                    "ntables", "maxlen", "wall", "nambiguous", "ninscope", "nlrglr",
                                                    "ncells_exercised", "ngrammars_with_conflicts",
                                                    "mc_lex_configurations", "mc_lex_ok", "nmulti_survivors",
-                                                   "outcomes", "mc_pipeline_ok", "mc_regen_ok", "nregenerations", "nkeys", "nsugar_uses", "nrejected", "programs", "nqueries", "nruns", "npaired", "ngenerated", "nshapes", "ncombos") if k in r}
+                                                   "outcomes", "mc_pipeline_ok", "mc_regen_ok", "nregenerations", "nkeys", "nsugar_uses", "nrejected", "programs", "nqueries", "nruns", "npaired", "ngenerated", "nshapes", "ncombos", "nmodel_runs") if k in r}
         cov["per_stage"][st]["divergences"] = len(r.get("divergences", []))
     cov["states"] = max(cov["states"], 1)
     cov["transitions"] = max(cov["transitions"], 1)
